@@ -1,3 +1,5 @@
-/- C04: database layer (Props/C04.lean) + the engine's use of it (Props/C04Engine.lean). -/
+/- C04: database layer (Props/C04.lean) + the engine's use of it (Props/C04Engine.lean) + the concrete engine
+model killed at any point of a build (Props/EngineImplCrash.lean over Lemmas/Refine). -/
 import LLBuild.Props.C04
 import LLBuild.Props.C04Engine
+import LLBuild.Props.EngineImplCrash
